@@ -266,6 +266,53 @@ fn main() {
             }
         });
     }
+    // ---- (a'') presentations of table knots ---------------------------------------------------------------
+    // non-alternating table knots up to 10 crossings (thorough: every table knot up to 10): the code as
+    // tabulated, with the crossings listed in reverse and in rotated order, and with shifted edge labels;
+    // reduced and unreduced Kh over Z must not depend on the presentation (seed
+    // `C02-connect-single-arc-drops-genus` shows on the reduced homology of one 10-crossing table code only)
+    {
+        let nonalt = |n: &str| -> bool {
+            let n = n.trim_start_matches("table:");
+            let mut it = n.split('_');
+            let (Some(c), Some(k)) = (it.next().and_then(|x| x.parse::<usize>().ok()), it.next().and_then(|x| x.parse::<usize>().ok())) else { return false };
+            (c == 8 && k >= 19) || (c == 9 && k >= 42) || (c == 10 && k >= 124)
+        };
+        let tab: Vec<(String, Diagram)> = table_family(10, false).into_iter().filter(|(n, _)| th || nonalt(n)).collect();
+        run.add("table_presentations", tab.len() as u64);
+        run.par_for(tab.len(), |i| {
+            if run.over_budget() {
+                run.cap("wall budget reached in the table presentations");
+                return;
+            }
+            let (name, d) = &tab[i];
+            let code = d.pd();
+            let n = code.len();
+            let variants: Vec<(&str, Vec<[usize; 4]>)> = vec![
+                ("reversed-order", code.iter().rev().cloned().collect()),
+                ("rotated-order", (0..n).map(|k| code[(k + n / 2) % n]).collect()),
+                ("labels+7", code.iter().map(|x| x.map(|e| e + 7)).collect()),
+                ("labels-reversed", code.iter().map(|x| x.map(|e| 2 * n + 1 - e)).collect()),
+            ];
+            let l1 = Link::from_pd_code(code.clone());
+            for red in [false, true] {
+                let base = kh::<i64>(&l1, red);
+                for (vn, v) in &variants {
+                    run.add("evaluations", 1);
+                    run.add("move_edges", 1);
+                    let key = format!("khmove:i64:red={}:table-presentation:{vn}:{name}", red as u8);
+                    match (&base, kh::<i64>(&Link::from_pd_code(v.clone()), red)) {
+                        (Ok(a), Ok(b)) => {
+                            if let Some(diff) = diff_tables(&b, a) {
+                                run.fail(&key, &format!("Kh changes when the tabulated diagram is presented differently: {diff}"), json!({"pd": code, "variant": v, "reduced": red}));
+                            }
+                        }
+                        (a, b) => run.fail(&key, &format!("panicked: {:?} / {:?}", a.as_ref().err(), b.err()), json!({"pd": code, "variant": v})),
+                    }
+                }
+            }
+        });
+    }
     // ---- (c) long histories: one path of up to 61 moves from a small diagram ---------------------------
     // Every kink type in turn on edges spread over the diagram (R1), and for braids cancelling pairs
     // plus Markov stabilisations; the library's tables at the checkpoints (31, 32, 33, 34, 40, 48, 63
